@@ -288,6 +288,12 @@ func runC10(w *fw.Worker) {
 		{mapDecl, pt.For{Var: "k", Range: []pt.Expr{pt.V("m")}, Body: []pt.Stmt{pt.Print(pt.V("k")), pt.Assign{Target: pt.Dot{X: pt.V("m"), Key: "z"}, X: pt.N(0)}}}, pt.Print(pt.V("m"))},
 		{mapDecl, pt.For{Var: "k", Range: []pt.Expr{pt.V("m")}, Body: []pt.Stmt{pt.Print(pt.V("k")), pt.CallStmt{C: pt.C("del", pt.V("m"), pt.S("c"))}, pt.Assign{Target: pt.Dot{X: pt.V("m"), Key: "c"}, X: pt.N(5)}}}, pt.Print(pt.V("m"))},
 		{mapDecl, pt.For{Var: "k", Range: []pt.Expr{pt.V("m")}, Body: []pt.Stmt{pt.Print(pt.V("k")), pt.Assign{Target: pt.V("m"), X: pt.M("q", pt.N(1))}}}, pt.Print(pt.V("m"))},
+		// the same loops without a loop variable: the number of iterations follows the same rules
+		{mapDecl, pt.For{Range: []pt.Expr{pt.V("m")}, Body: []pt.Stmt{pt.Print(pt.S("turn")), pt.CallStmt{C: pt.C("del", pt.V("m"), pt.S("c"))}}}, pt.Print(pt.V("m"))},
+		{mapDecl, pt.For{Range: []pt.Expr{pt.V("m")}, Body: []pt.Stmt{pt.Print(pt.S("turn")), pt.Assign{Target: pt.Dot{X: pt.V("m"), Key: "z"}, X: pt.N(0)}}}, pt.Print(pt.V("m"))},
+		{mapDecl, pt.InferDecl{Name: "n", X: pt.V("m")}, pt.For{Range: []pt.Expr{pt.V("m")}, Body: []pt.Stmt{pt.Print(pt.S("turn")), pt.For{Var: "k", Range: []pt.Expr{pt.V("n")}, Body: []pt.Stmt{pt.CallStmt{C: pt.C("del", pt.V("n"), pt.V("k"))}}}}}, pt.Print(pt.V("m"))},
+		{arrDecl, pt.For{Range: []pt.Expr{pt.V("arr")}, Body: []pt.Stmt{pt.Print(pt.S("turn")), pt.Assign{Target: pt.V("arr"), X: pt.A()}}}, pt.Print(pt.V("arr"))},
+		{strDecl, pt.For{Range: []pt.Expr{pt.V("s")}, Body: []pt.Stmt{pt.Print(pt.S("turn")), pt.Assign{Target: pt.V("s"), X: pt.S("")}}}, pt.Print(pt.V("s"))},
 		// nested loops: break leaves only the inner loop
 		{pt.For{Var: "i", Range: []pt.Expr{pt.N(2)}, Body: []pt.Stmt{pt.For{Var: "j", Range: []pt.Expr{pt.N(3)}, Body: []pt.Stmt{
 			pt.If{Conds: []pt.Expr{pt.Bin("==", pt.V("j"), pt.N(1))}, Blocks: [][]pt.Stmt{{pt.Break{}}}}, pt.Print(pt.V("i"), pt.V("j"))}}, pt.Print(pt.S("after"), pt.V("i"))}}},
